@@ -47,6 +47,7 @@ def run(ctx, R, tier):
     R.rule("C07-R2", "every literal class tag in dict_to_class names an existing Pyro class and its branch builds that class; exception tags are resolved in their own namespace", floor=7)
     R.rule("C07-R3", "server error path: traceback stored before serialisation, FLAGS_EXCEPTION set before the reply is built, reply condition as documented", floor=4)
     R.rule("C07-R4", "client raises the decoded object exactly under FLAGS_EXCEPTION", floor=2)
+    R.rule("C07-R7", "every failure of handleRequest ends the connection, so a caller never hangs on a reply that will not come (shared with C13-R4)", floor=3)
     R.rule("C07-R6", "exceptions raised by user code (methods, property accessors, stream iterators) are never swallowed or replaced on the dispatch path", floor=5)
     R.rule("C07-R5", "batch: the failing call's exception is wrapped in core._ExceptionWrapper with its traceback; the client tests the same class and re-raises the payload", floor=4)
 
@@ -148,45 +149,39 @@ def run(ctx, R, tier):
     if not nsvars:
         raise AnalysisError("dict_to_class: `namespace, short = classname.split('.', 1)` vanished")
     sites = [(c, c.args[0]) for c in ctx.calls_to(d2c, mke.qualname) if c.args]
-    n_ns = 0
-    for c, a in sites:
-        if not isinstance(a, ast.Name):
+    def ns_fact(names):
+        def pred(atom, pol):
+            if pol is not True or not isinstance(atom, ast.Compare) or len(atom.ops) != 1:
+                return False
+            if isinstance(atom.ops[0], ast.In) and isinstance(atom.comparators[0], (ast.Tuple, ast.List, ast.Set)):
+                return {e.value for e in atom.comparators[0].elts if isinstance(e, ast.Constant)} <= names and unparse(atom.left) in nsvars
+            if isinstance(atom.ops[0], ast.Eq) and isinstance(atom.comparators[0], ast.Constant):
+                return atom.comparators[0].value in names and unparse(atom.left) in nsvars
+            return False
+        return pred
+
+    def prefix_fact(atom, pol):
+        return pol is True and isinstance(atom, ast.Call) and isinstance(atom.func, ast.Attribute) and atom.func.attr == "startswith" and atom.args and \
+            isinstance(atom.args[0], ast.Constant) and atom.args[0].value == "Pyro5.errors."
+    wanted = {"builtins": ns_fact({"builtins", "exceptions"}), "sqlite3": ns_fact({"sqlite3"}), "Pyro5.errors": prefix_fact}
+    for want, fact in wanted.items():
+        here = [(c, a) for c, a in sites if all(cfg.guarded(node, lambda e: edge_has_fact(e, fact)) for node in ctx.node_of(d2c, c))]
+        if not here:
+            R.fail("C07-R2", "namespace:%s" % want, "an exception tagged %s.<X> is built from the class <X> of that very namespace" % want, d2c.loc(),
+                   "no make_exception site is left under the %s namespace test: such tags are resolved some other way (or not at all)" % want)
             continue
-        for node in ctx.node_of(d2c, c):
-            want = None
-
-            def ns_fact(names):
-                def pred(atom, pol):
-                    if pol is not True or not isinstance(atom, ast.Compare) or len(atom.ops) != 1:
-                        return False
-                    if isinstance(atom.ops[0], ast.In) and isinstance(atom.comparators[0], (ast.Tuple, ast.List, ast.Set)):
-                        return {e.value for e in atom.comparators[0].elts if isinstance(e, ast.Constant)} <= names and unparse(atom.left) in nsvars
-                    if isinstance(atom.ops[0], ast.Eq) and isinstance(atom.comparators[0], ast.Constant):
-                        return atom.comparators[0].value in names and unparse(atom.left) in nsvars
-                    return False
-                return pred
-
-            def prefix_fact(atom, pol):
-                return pol is True and isinstance(atom, ast.Call) and isinstance(atom.func, ast.Attribute) and atom.func.attr == "startswith" and atom.args and \
-                    isinstance(atom.args[0], ast.Constant) and atom.args[0].value == "Pyro5.errors."
-            if cfg.guarded(node, lambda e: edge_has_fact(e, ns_fact({"builtins", "exceptions"}))):
-                want = "builtins"
-            elif cfg.guarded(node, lambda e: edge_has_fact(e, ns_fact({"sqlite3"}))):
-                want = "sqlite3"
-            elif cfg.guarded(node, lambda e: edge_has_fact(e, prefix_fact)):
-                want = "Pyro5.errors"
-            if want is None:
-                continue
-            n_ns += 1
-            defs = rd.reaching(node, a.id)
-            ok = bool(defs) and all(d.kind == "assign" and isinstance(d.value, ast.Call) and isinstance(d.value.func, ast.Name) and d.value.func.id == "getattr"
-                                    and len(d.value.args) == 2 and isinstance(d.value.args[0], ast.Name) and
-                                    (p.resolve_dotted(d2c.module, d.value.args[0].id, d2c) or (None, ""))[1] == want for d in defs)
+        for c, a in here:
+            ok = False
+            defs = []
+            if isinstance(a, ast.Name):
+                for node in ctx.node_of(d2c, c):
+                    defs = rd.reaching(node, a.id)
+                    ok = bool(defs) and all(d.kind == "assign" and isinstance(d.value, ast.Call) and isinstance(d.value.func, ast.Name) and d.value.func.id == "getattr"
+                                            and len(d.value.args) == 2 and isinstance(d.value.args[0], ast.Name) and
+                                            (p.resolve_dotted(d2c.module, d.value.args[0].id, d2c) or (None, ""))[1] == want for d in defs)
             R.check(ok, "C07-R2", "namespace:%s" % want, "an exception tagged %s.<X> is built from the class <X> of that very namespace" % want, d2c.loc(c),
                     "the class for a %s.* tag is taken from `%s`: a remote %s.X can arrive as a different class that happens to share the short name "
-                    "(e.g. builtins.TimeoutError as Pyro5.errors.TimeoutError)" % (want, ", ".join(unparse(d.value, 50) if d.value is not None else d.kind for d in defs), want))
-    if n_ns < 3:
-        raise AnalysisError("dict_to_class: namespace branches (builtins, sqlite3, Pyro5.errors) not found (%d)" % n_ns)
+                    "(e.g. builtins.TimeoutError as Pyro5.errors.TimeoutError)" % (want, ", ".join(unparse(d.value, 50) if d.value is not None else d.kind for d in defs) or unparse(a), want))
     # prefix / split arithmetic of the Pyro5.errors branch
     okp = False
     for n in walk_no_nested(d2c.node):
@@ -233,6 +228,30 @@ def run(ctx, R, tier):
         any(isinstance(n, ast.Attribute) and n.attr == "_pyroTraceback" for n in ast.walk(gpt.node))
     R.check(reads_tb and bool(tb), "C07-R3", "traceback|attribute-name-agrees", "the attribute the server stores the remote traceback in is the one errors.get_pyro_traceback reads", gpt.loc(),
             "server and client disagree on the name of the remote-traceback attribute")
+
+    # ---------------------------------------------------------------- R7 (shared with C13-R4)
+    from . import c13
+    R13 = Rules("C13")
+    c13.run(ctx, R13, tier)
+    for o in R13.obs:
+        if o.rule == "C13-R4":
+            R.add("C07-R7", o.key.split("|", 1)[1], o.desc + " (the daemon sends no reply for communication errors and relies on the connection being dropped: otherwise the caller hangs)",
+                  o.ok, o.loc, o.detail)
+    # the batch wrapper branch converts its payload under the same test recreate_classes uses
+    wb = []
+    for n in walk_no_nested(d2c.node):
+        if isinstance(n, ast.If) and "isinstance" in unparse(n.test):
+            for branch, pol in ((n.body, True), (n.orelse, False)):
+                if any(isinstance(x, ast.Call) and isinstance(x.func, ast.Attribute) and x.func.attr == "dict_to_class" for st in branch for x in ast.walk(st)
+                       if not isinstance(st, ast.If)):
+                    wb.append((n, pol))
+    okw = len(wb) == 1
+    if okw:
+        atoms = [unparse(a) for a, pl in facts_of(wb[0][0].test, wb[0][1]) if pl is True]
+        okw = len(atoms) == 2 and any(a.startswith("isinstance(") and a.endswith(", dict)") for a in atoms) and any(a.startswith("'__class__' in ") for a in atoms)
+    R.check(okw, "C07-R5", "wrapper|payload-converted-by-class-tag", "the wrapped exception dict is re-created whenever it carries a class tag (the test recreate_classes itself applies)", d2c.loc(wb[0][0]) if wb else d2c.loc(),
+            "the wrapper branch re-creates its payload under `%s`: exceptions transported by a registered converter stay raw dicts and the batch raises TypeError instead of that call's own exception"
+            % (unparse(wb[0][0].test) if wb else "?"))
 
     # ---------------------------------------------------------------- R6
     n6 = 0
